@@ -229,6 +229,35 @@ pub fn check_c04(obs: &Observation) -> V {
                     );
                 }
             }
+            if known && clean && obs.truth_at_quiescence.is_some() && !matches!(kind, "command") {
+                // at clean quiescence every sync request of a remote that is still linked has been
+                // answered by synced (requests are coalesced at most: one synced may answer several)
+                let q = r.frames_at_quiescence.unwrap_or(r.frames.len());
+                let mut state_linked = false;
+                let mut last_synced_step = 0u64;
+                let mut last_unlinked_step = 0u64;
+                for f in r.frames.iter().take(q).filter(|f| f.lane == lane) {
+                    match f.kind {
+                        FrameKind::Linked => state_linked = true,
+                        FrameKind::Unlinked => {
+                            state_linked = false;
+                            last_unlinked_step = f.step;
+                        }
+                        FrameKind::Synced => last_synced_step = f.step,
+                        FrameKind::Event => {}
+                    }
+                }
+                let last_sync_req = r.sent.iter().filter(|(_, s)| matches!(s, Step::Sync(l) if *l == lane)).map(|(s, _)| *s).last();
+                let unlink_after = last_sync_req.map(|sr| r.sent.iter().any(|(s, st)| *s > sr && matches!(st, Step::Unlink(l) if *l == lane))).unwrap_or(false);
+                if let Some(sr) = last_sync_req {
+                    if !unlink_after && last_unlinked_step < sr && (last_synced_step < sr || !state_linked) && !(last_synced_step > sr) {
+                        add(
+                            format!("as: sync request never answered by synced lane-kind={}", kind),
+                            format!("remote {} lane {}: sync sent at step {}, last synced read at step {}, linked={} at quiescence", ri, lane, sr, last_synced_step, state_linked),
+                        );
+                    }
+                }
+            }
             if known && r.dropped_at.is_none() && r.closed_at.is_some() && obs.result.is_some() && linked {
                 add(
                     format!("as: link left open when the agent {} lane-kind={}", if matches!(obs.result, Some(Ok(()))) { "stopped" } else { "failed" }, kind),
